@@ -1,0 +1,63 @@
+//go:build verif
+
+// Contracts for the bmverif deductive checker (comment-only; compiled only under -tags verif).
+// Property C04, per-step part: neither side of a handshaked transfer proceeds past its I/O instruction before the
+// transfer has happened. (That these steps compose to exactly-once, in-order delivery for every relative timing
+// is a whole-history protocol property that per-call contracts do not decide.)
+
+package procbuilder
+
+//@ props C04
+
+// operand fields of an I/O instruction word
+//@ spec fReg(vm *VM, instr string) int := val(sub(instr, 0, int(vm.Mach.R)))
+//@ spec fOut(vm *VM, instr string) int := val(sub(instr, int(vm.Mach.R), int(vm.Mach.R) + vm.Mach.Outputs_bits()))
+//@ spec fIn(vm *VM, instr string) int := val(sub(instr, int(vm.Mach.R), int(vm.Mach.R) + vm.Mach.Inputs_bits()))
+
+// the valid/received flag arrays of a VM are distinct (VM.Init allocates each with its own make)
+//@ pred sepFlags(vm *VM) := arr(vm.OutputsValid) != arr(vm.OutputsRecv) && arr(vm.InputsValid) != arr(vm.InputsRecv) &&
+//@        arr(vm.Inputs) != arr(vm.Registers) && arr(vm.Outputs) != arr(vm.Registers)
+
+//@ func (op R2owa) Simulate(vm *VM, instr string) error
+//@   requires vm != nil && vm.Mach != nil && 1 <= int(vm.Mach.R) && int(vm.Mach.R) <= 30 && sepFlags(vm) && vm.Pc < pow2(63)
+//@   requires len(instr) >= int(vm.Mach.R) + vm.Mach.Outputs_bits()
+//@   requires fReg(vm, instr) < len(vm.Registers) && fOut(vm, instr) < len(vm.Outputs) && fOut(vm, instr) < len(vm.OutputsValid) && fOut(vm, instr) < len(vm.OutputsRecv)
+//@   ensures data: result == nil && vm.Outputs[fOut(vm, instr)] == old(vm.Registers[fReg(vm, instr)])
+//@   ensures done: old(vm.OutputsRecv[fOut(vm, instr)]) ==> vm.Pc == old(vm.Pc) + 1 && !vm.OutputsValid[fOut(vm, instr)]
+//@   ensures wait: !old(vm.OutputsRecv[fOut(vm, instr)]) ==> vm.Pc == old(vm.Pc) && vm.OutputsValid[fOut(vm, instr)]
+//@   assigns vm.Outputs[fOut(vm, instr)], vm.OutputsValid[fOut(vm, instr)], vm.Pc
+
+//@ props C04 C09
+//@ func (vm *VM) AddDeferredInstruction(diName string, di DeferredInstruction) error
+//@   reads vm.DeferredInstructions, vm.DeferredInstructions[*]
+//@   ensures registered: vm != nil && vm.DeferredInstructions != nil ==> result == nil && haskey(vm.DeferredInstructions, diName)
+//@   ensures rejected: vm == nil || vm.DeferredInstructions == nil ==> result != nil
+//@   assigns vm.DeferredInstructions[*]
+
+//@ func (vm *VM) waitRecvI2rw(inp int) bool
+//@   reads vm.InputsValid, vm.InputsValid[*], vm.InputsRecv
+//@   requires vm != nil && 0 <= inp && inp < len(vm.InputsValid) && inp < len(vm.InputsRecv) && arr(vm.InputsValid) != arr(vm.InputsRecv)
+//@   ensures completes: result == !old(vm.InputsValid[inp])
+//@   ensures drops: result ==> !vm.InputsRecv[inp]
+//@   ensures holds: !result ==> vm.InputsRecv[inp] == old(vm.InputsRecv[inp])
+//@   assigns vm.InputsRecv[inp]
+
+//@ func (vm *VM) waitRecvSicv3(inp int) bool
+//@   reads vm.InputsValid, vm.InputsValid[*], vm.InputsRecv
+//@   requires vm != nil && 0 <= inp && inp < len(vm.InputsValid) && inp < len(vm.InputsRecv) && arr(vm.InputsValid) != arr(vm.InputsRecv)
+//@   ensures completes: result == !old(vm.InputsValid[inp])
+//@   ensures drops: result ==> !vm.InputsRecv[inp]
+//@   ensures holds: !result ==> vm.InputsRecv[inp] == old(vm.InputsRecv[inp])
+//@   assigns vm.InputsRecv[inp]
+
+//@ props C04
+//@ func (op I2rw) Simulate(vm *VM, instr string) error
+//@   requires vm != nil && vm.Mach != nil && 1 <= int(vm.Mach.R) && int(vm.Mach.R) <= 30 && sepFlags(vm) && vm.Pc < pow2(63) && vm.DeferredInstructions != nil
+//@   requires len(instr) >= int(vm.Mach.R) + vm.Mach.Inputs_bits()
+//@   requires fReg(vm, instr) < len(vm.Registers) && fIn(vm, instr) < len(vm.Inputs) && fIn(vm, instr) < len(vm.InputsValid) && fIn(vm, instr) < len(vm.InputsRecv)
+//@   ensures taken: old(vm.InputsValid[fIn(vm, instr)]) ==> vm.Registers[fReg(vm, instr)] == old(vm.Inputs[fIn(vm, instr)]) &&
+//@             vm.InputsRecv[fIn(vm, instr)] && vm.Pc == old(vm.Pc) + 1
+//@   ensures deferred: old(vm.InputsValid[fIn(vm, instr)]) ==> haskey(vm.DeferredInstructions, cat("waitRecvI2rw", itoa(fIn(vm, instr))))
+//@   ensures stalled: !old(vm.InputsValid[fIn(vm, instr)]) ==> vm.Pc == old(vm.Pc) && !vm.InputsRecv[fIn(vm, instr)] &&
+//@             vm.Registers[fReg(vm, instr)] == old(vm.Registers[fReg(vm, instr)])
+//@   assigns vm.Registers[fReg(vm, instr)], vm.InputsRecv[fIn(vm, instr)], vm.Pc, vm.DeferredInstructions[*]
